@@ -139,6 +139,8 @@ func (n *RaftNode) AddBulk(bulk [][]byte) ([]*balloon.Snapshot, error) {
 // QueryDigestMembershipConsistency acts as a passthrough when an event digest is given to
 // request a membership proof against a certain balloon version.
 func (n *RaftNode) QueryDigestMembershipConsistency(keyDigest hashing.Digest, version uint64) (*balloon.MembershipProof, error) {
+	n.applyMu.RLock()
+	defer n.applyMu.RUnlock()
 	n.metrics.DigestMembershipQueries.Inc()
 	return n.balloon.QueryDigestMembershipConsistency(keyDigest, version)
 }
@@ -146,6 +148,8 @@ func (n *RaftNode) QueryDigestMembershipConsistency(keyDigest hashing.Digest, ve
 // QueryMembershipConsistency acts as a passthrough when an event is given to request a
 // membership proof against a certain balloon version.
 func (n *RaftNode) QueryMembershipConsistency(event []byte, version uint64) (*balloon.MembershipProof, error) {
+	n.applyMu.RLock()
+	defer n.applyMu.RUnlock()
 	n.metrics.MembershipQueries.Inc()
 	return n.balloon.QueryMembershipConsistency(event, version)
 }
@@ -153,6 +157,8 @@ func (n *RaftNode) QueryMembershipConsistency(event []byte, version uint64) (*ba
 // QueryDigestMembership acts as a passthrough when an event digest is given to request a
 // membership proof against the last balloon version.
 func (n *RaftNode) QueryDigestMembership(keyDigest hashing.Digest) (*balloon.MembershipProof, error) {
+	n.applyMu.RLock()
+	defer n.applyMu.RUnlock()
 	n.metrics.DigestMembershipQueries.Inc()
 	return n.balloon.QueryDigestMembership(keyDigest)
 }
@@ -160,12 +166,16 @@ func (n *RaftNode) QueryDigestMembership(keyDigest hashing.Digest) (*balloon.Mem
 // QueryMembership acts as a passthrough when an event is given to request a membership proof
 // against the last balloon version.
 func (n *RaftNode) QueryMembership(event []byte) (*balloon.MembershipProof, error) {
+	n.applyMu.RLock()
+	defer n.applyMu.RUnlock()
 	n.metrics.MembershipQueries.Inc()
 	return n.balloon.QueryMembership(event)
 }
 
 // QueryConsistency acts as a passthrough when requesting an incremental proof.
 func (n *RaftNode) QueryConsistency(start, end uint64) (*balloon.IncrementalProof, error) {
+	n.applyMu.RLock()
+	defer n.applyMu.RUnlock()
 	n.metrics.IncrementalQueries.Inc()
 	return n.balloon.QueryConsistency(start, end)
 }
@@ -255,6 +265,10 @@ func (n *RaftNode) Restore(rc io.ReadCloser) error {
 func (n *RaftNode) applyAdd(hashes []hashing.Digest, state *fsmState) *fsmResponse {
 
 	resp := new(fsmResponse)
+	// queries read both the balloon's in-memory state and the store: keep them
+	// out between the in-memory insertion and the store write
+	n.applyMu.Lock()
+	defer n.applyMu.Unlock()
 	snapshotBulk, mutations, err := n.balloon.AddBulk(hashes)
 	if err != nil {
 		n.log.Panicf("Unable to add bulk: %v", err)
